@@ -25,7 +25,10 @@ class P(Property):
             'application task, bodies of distinct bytes cut into DATA frames and chunks; a seeded subset gets ONE fault '
             '(RESET with a seeded code at every kind of byte offset: frame boundary, inside the HEADERS frame, inside a DATA '
             'header, inside a payload; STOP_SENDING at a seeded point; three malformed but validly QPACK-encoded sections; a '
-            'section over the configured limit; FIN before HEADERS), a few cases carry a connection-level fault instead '
+            'section over the configured limit; FIN before HEADERS; and, after a complete body, a malformed trailer '
+            'section (uppercase / non-token name, NUL in a value, undefined pseudo-header) or an oversized one - the '
+            'application tasks call recv_trailers on every request and a seeded subset of requests sends trailers '
+            'itself), a few cases carry a connection-level fault instead '
             '(undecodable QPACK, DATA first, truncated frame + FIN) to exercise the store path; the peer\'s SETTINGS limit and a '
             'GOAWAY arrive at seeded points in some cases; the case line carries the complete seeded schedule of deliveries '
             'and task polls; every request is re-run alone under the projected schedule and diffed. non-trivial = distinct '
@@ -54,6 +57,8 @@ class P(Property):
                 k = rng.randint(1, len(rest))
                 evs.append('m' + hx(rest[:k]))
                 rest = rest[k:]
+        if rng.random() < 0.3:
+            evs.append('t')
         evs.append('F')
         return evs, data
 
@@ -76,6 +81,8 @@ class P(Property):
                     out.append('d%s:%s' % (tot, hx(pl[:rng.randrange(len(pl))])))
                 else:
                     out.append('dq' + tot)
+            elif e == 't':
+                out.append('tp%d' % rng.randint(1, 5))
             elif e[0] == 'm':
                 pl = bytes.fromhex(e[1:])
                 x = rng.randrange(len(pl))
@@ -90,7 +97,8 @@ class P(Property):
         reqs, nev, stops = [], [], []
         for i in range(n):
             evs, _ = self.healthy_events(rng, i)
-            kind = rng.choice(['ok', 'ok', 'ok', 'reset', 'reset', 'stop', 'malformed', 'oversized', 'finfirst', 'conn'])
+            kind = rng.choice(['ok', 'ok', 'ok', 'reset', 'reset', 'stop', 'malformed', 'oversized', 'finfirst', 'conn',
+                               'trlbad', 'trlbad', 'trlbig'])
             if rng.random() < 0.03:
                 kind = 'conn'
             stop = '-'
@@ -102,19 +110,31 @@ class P(Property):
                 evs = ['hm%d' % rng.randrange(3)] + (evs[1:] if rng.random() < 0.5 else [])
             elif kind == 'oversized':
                 evs = ['ho'] + (evs[1:] if rng.random() < 0.5 else [])
+            elif kind in ('trlbad', 'trlbig'):
+                body = [e for e in evs[:-1] if e != 't']
+                evs = body + ['tm%d' % rng.randrange(4) if kind == 'trlbad' else 'to']
+                r = rng.random()
+                if r < 0.8:
+                    evs.append('F')
+                elif r < 0.9:
+                    evs.append('R%d' % rng.choice([0, 270, 99]))
+                else:
+                    evs += ['tp%d' % rng.randint(1, 5), 'R7']
             elif kind == 'finfirst':
                 evs = ['F'] if role == 's' or rng.random() < 0.5 else evs
             elif kind == 'conn':
                 if rng.random() < 0.85:
                     kind = 'ok'
                 else:
-                    evs = rng.choice([['hq'], evs[1:], ['hp2', 'F'], ['h', 'd4:aa', 'F'], ['h', 'h', 'F'], ['F']])
+                    evs = rng.choice([['hq'], evs[1:], ['hp2', 'F'], ['h', 'd4:aa', 'F'], ['h', 'h', 'F'], ['F'],
+                                      ['h', 'tq', 'F'], ['h', 't', 'd1:aa', 'F'], ['h', 't', 't', 'F'], ['h', 'tp2', 'F']])
                     if not evs:
                         evs = ['F']
             pad = rng.choice([0, 0, 0, 0, 1, 7, 30])
             z = (H_SRV_RESP if role == 's' else H_CLI_REQ) + ((3 + pad + 32) if pad else 0)
             body = [((i + 9) << 4 | k) & 0xff for k in range(rng.choice([0, 1, 2, 5]))]
-            reqs.append('%s;%s;%d;%d;%s' % ('.'.join(evs), stop, pad, z, hx(body)))
+            tz = '-' if rng.random() < 0.7 else str(rng.choice([35, 36, 40, 60, 135]))
+            reqs.append('%s;%s;%d;%d;%s;%s' % ('.'.join(evs), stop, pad, z, hx(body), tz))
             nev.append(len(evs))
             stops.append(stop != '-')
         # schedule
@@ -123,13 +143,13 @@ class P(Property):
             if role == 's':
                 acts.append('o%d' % i)
             acts += ['e%d' % i] * nev[i]
-            acts += ['p%d' % i] * rng.randint(1, nev[i] + 4)
+            acts += ['p%d' % i] * rng.randint(1, nev[i] + 5)
             if stops[i]:
                 acts.append('s%d' % i)
         acts += ['pd'] * rng.randint(0, 3)
         glob = []
         if rng.random() < 0.12:
-            glob.append('gS%d' % rng.choice([0, 41, 42, 43, 100, 168, 169, 210, 1000, 2 ** 40]))
+            glob.append('gS%d' % rng.choice([0, 34, 35, 41, 42, 43, 59, 100, 168, 169, 210, 1000, 2 ** 40]))
             if role == 'c' and rng.random() < 0.4:
                 glob.append('gG')
         rng.shuffle(acts)
@@ -148,7 +168,7 @@ class P(Property):
             acts.insert(pos, g)
         if rng.random() < 0.85:
             for i in range(n):
-                acts += ['e%d' % i] * nev[i] + ['p%d' % i] * 5
+                acts += ['e%d' % i] * nev[i] + ['p%d' % i] * 6
         acts.append('pd')
         return 'sf %s r=%s sched=%s' % (role, '/'.join(reqs), ','.join(acts))
 
@@ -175,7 +195,7 @@ class P(Property):
             upto = '' if upto == '-' else upto
             return upto.startswith(data)
         if a[0] == 'ok':
-            return o['res'] == 'ok' and o['d'] == a[1] and o['t'] == a[2] and o['c'] == 'F'
+            return o['res'] == 'ok' and o['d'] == a[1] and o['t'] == a[2] and o['c'] == 'F' and o['tr'] == a[3]
         r = o['res'].split(':')
         if r[0] != 'err' or len(r) != 5:
             return False
